@@ -32,6 +32,8 @@ BREAKS = [
     ('key_expr ignores the segment of a cell', 'miasmx/expression/expression.py', 'return [ 3, key_expr(e.arg), e.size, key_expr(e.segm) ]', 'return [ 3, key_expr(e.arg), e.size ]', 'checks.C13smt', 'ind:key_expr[ExprMem'),
     ('MatchExpr forgets the second arm of a conditional', 'miasmx/expression/expression.py', '        r = MatchExpr(e.src2, m.src2, tks, result)\n        if r is False: return False\n', '', 'checks.C16smt', 'ind:MatchExpr[ExprCond'),
     ('MatchExpr ignores the segment of a cell', 'miasmx/expression/expression.py', '        if e.size != m.size or e.segm != m.segm:', '        if e.size != m.size:', 'checks.C16smt', 'ind:MatchExpr[ExprMem'),
+    ('substract_mems: surviving head one byte too long', 'miasmx/expression/expression_eval_abstract.py', '                val = self.pool[a][0:ptr_diff*8]\n', '                val = self.pool[a][0:ptr_diff*8+8]\n', 'checks.C07smt', 'substract_mems['),
+    ('substract_mems: surviving tail addressed from the wrong cell', 'miasmx/expression/expression_eval_abstract.py', "                ex = ExprOp('+', b.arg, ExprInt(uint32(b.size/8)))", "                ex = ExprOp('+', a.arg, ExprInt(uint32(b.size/8)))", 'checks.C07smt', 'substract_mems['),
 ]
 
 DRIVER = r'''
@@ -52,6 +54,7 @@ r = R()
 mod.ob_smt(r)
 if hasattr(mod, 'ob_ad'): mod.ob_ad(r)
 if hasattr(mod, 'ob_match'): mod.ob_match(r)
+if hasattr(mod, 'ob_sub'): mod.ob_sub(r)
 print(json.dumps(obs))
 '''
 
